@@ -65,7 +65,8 @@ def main():
     old = {}
     if os.path.exists(out):
         old = json.load(open(out))
-    old.update(results)
+    for name, res in results.items():
+        old.setdefault(name, {}).update(res)
     json.dump(old, open(out, "w"), indent=1, sort_keys=True)
 
 
